@@ -12,7 +12,7 @@ from .ref import cfdp as R
 from .strategies import expand_fill, hexblob, name, uint
 
 WIDTHS = (1, 2, 4, 8)
-CONDITION_CODES = (0, 1, 2, 3, 4, 5, 6, 7, 8, 10, 11, 14, 15)
+CONDITION_CODES = (0, 1, 2, 3, 4, 5, 6, 7, 8, 9, 10, 11, 14, 15)  # 727.0-B-5 table 5-5 (12 and 13 are reserved)
 EOF_FAULT_CCS = tuple(c for c in CONDITION_CODES if c != 0)
 FIN_FAULT_CCS = tuple(c for c in CONDITION_CODES if c not in (0, 11))
 CHECKSUM_TYPES = (0, 1, 2, 3, 15)
@@ -95,12 +95,10 @@ def conf_classes(c):
 
 
 def valid_statuses(action: int):
-    """4-bit status codes s for which (action << 4 | s) is a member of the library's status enum
-    (this is the generator's domain, not an oracle: the encoding itself is checked by the reference)."""
-    from spacepackets.cfdp.tlv.defs import FilestoreResponseStatusCode as S
+    """The 4-bit status codes that 727.0-B-5 table 5-18 defines for an action code (vf/ref/names.py, not the library's enumeration)."""
+    from .ref.names import FILESTORE_STATUS
 
-    members = {int(m) for m in S.__members__.values() if int(m) >= 0}
-    return [s for s in range(16) if ((action << 4) | s) in members]
+    return sorted(FILESTORE_STATUS[action])
 
 
 def st_entity_tlv():
